@@ -145,7 +145,10 @@ func NewInliner(known func(fn *ssa.Function) bool) *Inliner {
 }
 
 func (il *Inliner) inlinable(g *ssa.Function) bool {
-	if g == nil || len(g.Blocks) == 0 || g.Parent() != nil || g.Synthetic != "" || g.Recover != nil {
+	if g == nil || len(g.Blocks) == 0 || g.Parent() != nil || g.Synthetic != "" {
+		return false
+	}
+	if g.Recover != nil && !hasDefers(g) {
 		return false
 	}
 	if !InModule(g) || il.Known(g) {
@@ -164,9 +167,15 @@ func (il *Inliner) inlinable(g *ssa.Function) bool {
 	rets := 0
 	for _, b := range g.Blocks {
 		for _, in := range b.Instrs {
-			switch in.(type) {
-			case *ssa.Defer, *ssa.RunDefers, *ssa.Go:
+			switch x := in.(type) {
+			case *ssa.Go:
 				return false
+			case *ssa.Defer:
+				// merged only at a tail call (see tailPosition) and only when the
+				// deferred call cannot observe the difference
+				if !deferMovable(g, x) {
+					return false
+				}
 			case *ssa.Return:
 				rets++
 			}
@@ -221,6 +230,10 @@ func (il *Inliner) Normalise(fn *ssa.Function) {
 				}
 				if il.state[g] == 1 {
 					skipped[c] = true // recursion
+					continue
+				}
+				if hasDefers(g) && !tailPosition(c) {
+					skipped[c] = true
 					continue
 				}
 				// the callee's generic body may only be merged into a caller with
@@ -330,6 +343,9 @@ func (il *Inliner) inlineCall(fn *ssa.Function, call *ssa.Call, g *ssa.Function)
 	bmap := map[*ssa.BasicBlock]*ssa.BasicBlock{}
 	var nblocks []*ssa.BasicBlock
 	for _, gb := range g.Blocks {
+		if gb == g.Recover {
+			continue
+		}
 		nb := newBlock(fn, "inl."+g.Name()+"."+gb.Comment)
 		bmap[gb] = nb
 		nblocks = append(nblocks, nb)
@@ -342,6 +358,9 @@ func (il *Inliner) inlineCall(fn *ssa.Function, call *ssa.Call, g *ssa.Function)
 	var rets []retSite
 	var clones []ssa.Instruction
 	for _, gb := range g.Blocks {
+		if gb == g.Recover {
+			continue
+		}
 		nb := bmap[gb]
 		for _, p := range gb.Preds {
 			nb.Preds = append(nb.Preds, bmap[p])
@@ -360,6 +379,9 @@ func (il *Inliner) inlineCall(fn *ssa.Function, call *ssa.Call, g *ssa.Function)
 			}
 			if _, ok := in.(*ssa.DebugRef); ok {
 				continue
+			}
+			if _, ok := in.(*ssa.RunDefers); ok {
+				continue // the caller's own rundefers (tail position) runs them
 			}
 			c := cloneInstr(in)
 			setInstrBlock(c, nb)
@@ -459,6 +481,21 @@ func (il *Inliner) inlineCall(fn *ssa.Function, call *ssa.Call, g *ssa.Function)
 		results[k] = phi
 	}
 	B2.Instrs = append(phis, B2.Instrs...)
+	if hasDefers(g) {
+		// tail position: make sure the deferred calls run before the return
+		has := false
+		for _, in := range B2.Instrs {
+			if _, ok := in.(*ssa.RunDefers); ok {
+				has = true
+			}
+		}
+		if !has {
+			rd := &ssa.RunDefers{}
+			setInstrBlock(rd, B2)
+			n := len(B2.Instrs)
+			B2.Instrs = append(B2.Instrs[:n-1:n-1], rd, B2.Instrs[n-1])
+		}
+	}
 	// uses of the call
 	switch {
 	case nres == 1:
@@ -1012,4 +1049,95 @@ func removeRefOnce(v ssa.Value, in ssa.Instruction) {
 			return
 		}
 	}
+}
+
+func hasDefers(g *ssa.Function) bool {
+	for _, b := range g.Blocks {
+		for _, in := range b.Instrs {
+			if _, ok := in.(*ssa.Defer); ok {
+				return true
+			}
+		}
+	}
+	return false
+}
+
+// deferMovable: the deferred call may run at the caller's return instead of
+// the helper's (the call site is in tail position, so nothing executes in
+// between): it is not a closure over the helper's variables, receives no
+// pointer into the helper's frame, and cannot recover.
+func deferMovable(g *ssa.Function, d *ssa.Defer) bool {
+	if _, isClosure := d.Call.Value.(*ssa.MakeClosure); isClosure {
+		return false
+	}
+	if b, isB := d.Call.Value.(*ssa.Builtin); isB && b.Name() == "recover" {
+		return false
+	}
+	if callee := d.Call.StaticCallee(); callee != nil && InModule(callee) {
+		for _, b := range callee.Blocks {
+			for _, in := range b.Instrs {
+				if c, ok := in.(*ssa.Call); ok {
+					if bi, isB := c.Call.Value.(*ssa.Builtin); isB && bi.Name() == "recover" {
+						return false
+					}
+				}
+			}
+		}
+	}
+	for _, a := range d.Call.Args {
+		root := a
+		for {
+			switch x := root.(type) {
+			case *ssa.FieldAddr:
+				root = x.X
+				continue
+			case *ssa.IndexAddr:
+				root = x.X
+				continue
+			case *ssa.ChangeType:
+				root = x.X
+				continue
+			}
+			break
+		}
+		if al, ok := root.(*ssa.Alloc); ok && al.Parent() == g {
+			return false
+		}
+	}
+	return true
+}
+
+// tailPosition: after the call the caller only moves the results into its
+// result cells, runs its deferred calls and returns.
+func tailPosition(call *ssa.Call) bool {
+	b := call.Block()
+	after := false
+	for _, in := range b.Instrs {
+		if in == ssa.Instruction(call) {
+			after = true
+			continue
+		}
+		if !after {
+			continue
+		}
+		switch x := in.(type) {
+		case *ssa.Extract:
+			if x.Tuple != ssa.Value(call) {
+				return false
+			}
+		case *ssa.Store:
+			if _, ok := x.Addr.(*ssa.Alloc); !ok {
+				return false
+			}
+		case *ssa.UnOp:
+			if _, ok := x.X.(*ssa.Alloc); !ok || x.Op != token.MUL {
+				return false
+			}
+		case *ssa.RunDefers, *ssa.Return:
+		default:
+			return false
+		}
+	}
+	_, isRet := b.Instrs[len(b.Instrs)-1].(*ssa.Return)
+	return isRet
 }
